@@ -120,11 +120,12 @@ PROPS["C02"] = {
 
 PROPS["C14"] = {
     "level": "proof",
-    "verus": [{"unit": "recognisers", "rlimit": 200}, {"unit": "walkers", "rlimit": 200}, {"unit": "iterators", "rlimit": 200}],
+    "verus": [{"unit": "recognisers", "rlimit": 200}, {"unit": "walkers", "rlimit": 200}, {"unit": "iterators", "rlimit": 200}, {"unit": "getmany", "rlimit": 300}],
     "kani": K_STRTAB,
-    "trusted_base": [T1, T2, T4, T6, T8, VSTD, PERR],
+    "trusted_base": [T1, T2, T4, T6, T8, VSTD, PERR,
+                     "get_many walkers: the path trie (PointerTree / MultiKey / MultiIndex lookups) is opaque — `get` is assumed to return a child of the same well-formed tree whose `order` entries index the output vector; LazyValue::new is assumed to carry exactly the slice it is given; three declared substitutions (indexed store -> Vec::set, impure match guard -> nested if, `&\"a JSON object\"` -> the literal)"],
     "level_text": "Verus proof that whenever the validating skipper returns a fragment it is exactly data[ws_end..value_end) of a well-formed RFC 8259 value inside the input (skip_one postcondition); that checked get walkers succeed only if everything traversed (brackets, every earlier member/element, separators, key, colon) is well formed (object_lookup / array_lookup specs); and the same for each item of the checked iterators",
-    "level_note": "get_from_with_iter's generic path loop, get_many / get_by_schema walkers (trie, C11) are not under contract; parse_string_raw acceptance contract assumed in unit walkers; UTF-8 validity of the prefix is simdutf8 (T4)",
+    "level_note": "checked get_many walkers (get_many_rec / get_many_keys / get_many_index): every slot they fill is the exact span of a well-formed value, the fill count matches `remain`, and a walker that returns Ok with paths still open has validated its whole container; get_from_with_iter's generic path loop and get_by_schema are not under contract; parse_string_raw acceptance contract assumed in unit walkers; UTF-8 validity of the prefix is simdutf8 (T4)",
     "technique": TECH_V,
     "explanation": "skip_one: Ok((slice,_)) ==> slice == data[p..e) with value_end == Some(e)",
 }
